@@ -1,6 +1,6 @@
 (* C11 - a relay reports success only for recipients the next hop accepted.
    Statements only; proofs in proof/RelayClient_lemmas.v; model in model/RelayClient.v
-   (the code after fixes d7, d14, d15, d18, d20, d28). *)
+   (the code after fixes d7, d14, d15, d18, d20, d28, d29 and the reply-line fix). *)
 From Coq Require Import List NArith Bool.
 From SV Require Import lib.Bytes model.RelayClient proof.RelayClient_lemmas.
 Import ListNotations.
@@ -39,8 +39,9 @@ Proof. exact smtp_success_sound_gen. Qed.
 Print Assumptions C11_success_sound_smtp_is_error.
 
 (* a permanent failure is reported only on a 5xx reply at a stage of this connection/request
-   (or 8-bit body that cannot be converted, or AUTH configured but not offered);
-   a transient one only on a 4xx, malformed reply, disconnect, stall or failed connect *)
+   (or 8-bit body that cannot be converted, AUTH configured but not offered, an address that cannot
+   be encoded); a transient one only on a 4xx, malformed reply / bad reply code, disconnect, stall
+   or failed connect *)
 Theorem C11_classification_smtp : forall sc cfg msgs m i,
   (smtp_final sc cfg msgs m i = FPermanent -> PermCause sc cfg msgs m) /\
   (smtp_final sc cfg msgs m i = FTransient -> TransCause sc cfg m).
@@ -48,7 +49,7 @@ Proof. exact smtp_classification. Qed.
 Print Assumptions C11_classification_smtp.
 
 Theorem C11_classification_smtp_5xx : forall sc cfg msgs m msg i,
-  clean_script sc -> msg_at msgs m = Some msg -> clean_msg msg -> (i < length (m_rcpts msg))%nat ->
+  msg_at msgs m = Some msg -> (i < length (m_rcpts msg))%nat ->
   ~ TransCause sc cfg m ->
   (reply sc (Rcpt m (N.of_nat i)) = R5 \/ reply sc (Rcpt m (N.of_nat i)) = R500 \/
    reply sc (Mail m) = R5 \/ reply sc (Mail m) = R500 \/ reply sc (Data m) = R5 \/ reply sc (Data m) = R500) ->
@@ -58,7 +59,7 @@ Proof. exact smtp_5xx_permanent. Qed.
 Print Assumptions C11_classification_smtp_5xx.
 
 Theorem C11_classification_smtp_4xx : forall sc cfg msgs m msg i,
-  clean_script sc -> msg_at msgs m = Some msg -> clean_msg msg -> (i < length (m_rcpts msg))%nat ->
+  msg_at msgs m = Some msg -> (i < length (m_rcpts msg))%nat ->
   ~ PermCause sc cfg msgs m ->
   (reply sc (Rcpt m (N.of_nat i)) = R4 \/ reply sc (Mail m) = R4 \/ reply sc (Data m) = R4) ->
   smtp_final sc cfg msgs m i <> FQueued ->
@@ -66,29 +67,20 @@ Theorem C11_classification_smtp_4xx : forall sc cfg msgs m msg i,
 Proof. exact smtp_4xx_transient. Qed.
 Print Assumptions C11_classification_smtp_4xx.
 
-(* the attempt ends in a result or a relay error (or the request is back on the pool queue):
-   never a foreign exception, never a hang, never a missing table entry.  Guard = complement of the
-   known findings c11:bad-reply-code-valueerror and c11:non-ascii-address-unicodeerror. *)
-Theorem C11_total_smtp_partial : forall sc cfg msgs m msg i,
-  clean_script sc -> msg_at msgs m = Some msg -> clean_msg msg -> (i < length (m_rcpts msg))%nat ->
+(* the attempt ends, for every recipient of every request, in a result or a relay error (or the
+   request is back on the pool queue): never a foreign exception, never a hang, never a missing
+   table entry - for every script (bad reply codes included) and every envelope (addresses that
+   cannot be encoded included) *)
+Theorem C11_total_smtp : forall sc cfg msgs m msg i,
+  msg_at msgs m = Some msg -> (i < length (m_rcpts msg))%nat ->
   let f := smtp_final sc cfg msgs m i in
   f = FDelivered \/ f = FPermanent \/ f = FTransient \/ f = FQueued.
-Proof. exact smtp_total_partial. Qed.
-Print Assumptions C11_total_smtp_partial.
+Proof. exact smtp_total. Qed.
+Print Assumptions C11_total_smtp.
 
-Theorem C11_total_smtp_refuted :
-  exists sc cfg msgs m i, smtp_final sc cfg msgs m i = FOther.
-Proof. exact smtp_total_refuted. Qed.
-Print Assumptions C11_total_smtp_refuted.
-
-Theorem C11_total_smtp_refuted_address :
-  exists sc cfg msgs m i, clean_script sc /\ smtp_final sc cfg msgs m i = FOther.
-Proof. exact smtp_total_refuted_address. Qed.
-Print Assumptions C11_total_smtp_refuted_address.
-
-(* a foreign exception has exactly these causes *)
+(* a foreign exception is only possible for an envelope without recipients (rcpttos[0]) *)
 Theorem C11_total_smtp_other_cause : forall sc cfg msgs m i,
-  smtp_final sc cfg msgs m i = FOther -> ForeignCause sc msgs m.
+  smtp_final sc cfg msgs m i = FOther -> ForeignCause msgs m.
 Proof. exact smtp_other_cause. Qed.
 Print Assumptions C11_total_smtp_other_cause.
 
